@@ -17,8 +17,9 @@ REPO = os.environ.get("INFOCF_REPO", "/repo")
 
 
 def _verify_one(q):
-    from pyvc import run
+    from pyvc import logic, run
 
+    logic.CROSS_CHECK = os.environ.get("VERIF_CROSS") == "1"
     run.load_contracts()
     try:
         return run.verify_function(q)
@@ -71,6 +72,8 @@ def check_property(prop, tier, seed):
 
     t0 = time.time()
     spec = PROPS[prop]
+    if tier == "thorough":
+        os.environ["VERIF_CROSS"] = "1"
     findings = [f for f in load_findings() if f.get("status") == "open" and f["property"] == prop]
     lines = []
     violations = []
@@ -150,7 +153,13 @@ def check_property(prop, tier, seed):
     all_discharged = n_obl > 0 and n_ok == n_obl and not undecided
     if level == "proof" and not all_discharged:
         level = "other"
+    from pyvc import contract as _C
+
+    assumed_contracts = sorted(
+        {q for r in p_results for q in (r.get("callee_contracts") or []) if _C.get(q) is not None and _C.get(q).trusted}
+    )
     trusted_base = sorted(set(t for r in p_results for t in r.get("trusted_base", [])) | set(spec.get("trusted", [])))
+    trusted_base += [f"assumed contract of {q}: {(_C.get(q).note or '').strip()[:160]}" for q in assumed_contracts]
     cov = {
         "obligations": n_obl,
         "discharged": n_ok,
@@ -173,7 +182,9 @@ def check_property(prop, tier, seed):
         ],
         "lemmas": lemma_results,
         "solver_seconds": solver_s,
-        "back_end": "z3 (python API) on quantifier-free instances; cvc5 cross-check only in the thorough tier where enabled",
+        "back_end": "z3 " + __import__("z3").get_version_string() + " (python API) decides the quantifier-free instances"
+        + ("; every instance re-decided by /usr/bin/z3 4.8.12 via SMT-LIB export (disagreement = undecided)" if tier == "thorough" else "; second back end (z3 4.8.12 CLI) only in the thorough tier"),
+        "cross_checked": sum(1 for r in p_results for o in r["obligations"] if o.get("cross") in ("sat", "unsat")),
         "explanation": spec["explanation"],
         "bounded": None,
     }
